@@ -161,7 +161,7 @@ REGISTRY = {
     ),
     "C14": dict(
         jobs=lambda tier, seed: __import__("vf.props.formats", fromlist=["x"]).configs(tier),
-        job_of_config=lambda cfg: ("vf.props.formats", "c14_operator" if cfg.get("operator") else ("c14_sparse_dense" if cfg.get("sparse_dense") else "c14")),
+        job_of_config=lambda cfg: ("vf.props.formats", "c14_operator" if cfg.get("operator") else ("c14_sparse_dense" if cfg.get("sparse_dense") else ("c14_sparse_vectors" if cfg.get("sparse_vectors") else "c14"))),
         technique="the same symbolic Hamiltonian (sympy values, translated node-by-node to z3 terms) is passed to the real block_diagonalize as list, tuple-key dict, monomial-key dict, sympy matrix with symbols "
         "(incl. analytic dependence vs exact Taylor coefficients), nested block lists, BlockSeries, with subspace_indices / identity / rational real-orthogonal / complex-unitary / biorthogonal eigenvector matrices; "
         "z3 decides output(format) != output(reference format) for H_tilde, U, U_inv at every order; operator_to_BlockSeries blocks vs own L^dagger A R",
@@ -175,12 +175,13 @@ REGISTRY = {
     ),
     "C16": dict(
         jobs=lambda tier, seed: __import__("vf.props.solvers", fromlist=["x"]).configs(tier),
-        job_of_config=lambda cfg: ("vf.props.secondq", "c16_2nd_quant") if cfg.get("_job") == "2nd_quant" else ("vf.props.solvers", cfg.get("_job", "c16_diagonal")),
+        job_of_config=lambda cfg: ("vf.props.secondq", "c16_2nd_quant") if cfg.get("_job") == "2nd_quant" else (("vf.props.implicit", "c16_direct") if cfg.get("_job") == "direct" else ("vf.props.solvers", "c16_diagonal")),
         technique="the real solver callables are executed on symbolic right-hand sides (and symbolic energies in the sympy branch); z3 decides residual H0_i V - V H0_j - Y != 0 entrywise "
         "(V = 0 where energies coincide inside a block)",
         bounds={
             "quick": "solve_sylvester_diagonal numpy branch (dyadic real/complex spectra, degenerate levels, zero block, 1-3 blocks of dims 1-3, both orientations and diagonal blocks) and sympy branch "
-            "(symbolic / rational / complex energies, equal symbols -> zoo handling, non-square blocks, zero block)",
+            "(symbolic / rational / complex energies, equal symbols -> zoo handling, non-square blocks, zero block); second-quantised solver on 6 operator families; "
+            "solve_sylvester_direct / direct_greens_function (exact-LU stub): both orientations, degenerate and biorthogonal explicit levels, real/complex eigenvectors, dim 3-4",
             "thorough": "adds 3|3|1 symbolic and 3|2 numeric spectra",
         },
         assumptions=COMMON_ASSUMPTIONS + ["scipy.sparse branch of the diagonal solver, KPM greens_function/rescale and real sparse-LU accuracy are outside (compiled float kernels); see not_applicable notes in DESIGN.md"],
